@@ -286,9 +286,9 @@ def FDD_mpe(
         # Frequency bandwidth where the peak is searched
         lim = (sel_fn - DF, sel_fn + DF)
         idxlim = (
-            np.argmin(np.abs(freq - lim[0])),
-            np.argmin(np.abs(freq - lim[1])),
-        )  # Indices of the limits
+            np.searchsorted(freq, lim[0], side="left"),
+            np.searchsorted(freq, lim[1], side="right"),
+        )  # Indices of the limits (first line inside the band, first line beyond it)
         # Ratios between the first and second singular value
         diffS1S2 = Sval[0, 0, idxlim[0] : idxlim[1]] / Sval[1, 1, idxlim[0] : idxlim[1]]
         maxDiffS1S2 = np.max(diffS1S2)  # Looking for the maximum difference
